@@ -15,6 +15,8 @@ import CifModel.Model.Numb
       additem  createBlock; createLoop (_k); addPacketC ×2; addItemC
       addpkt   createBlock; createLoop (_k, _x); addPacketC
       update   createBlock; createLoop (_k, _x); addPacketC; getPackets; nextPacket; updatePacketC; closeIter | abortIter
+      frameset createBlock; createLoop (_k) + packet; createFrame f; setValueC f _k; createFrame g in f; setValueC g _x v; read from g
+               (the walker reaches g through all_frames twice: `wcontOf`)
       parse    as `set` (the parser stores an item outside a loop through cif_container_set_value: Props/C07Parser, family `parse`;
                cif_write ∘ cif_parse on the text is property C02/C03's business — the request gives the value as the parser makes it)
   and reads back through the three read paths the C07 theorems are about (Props/C07Read.lean):
@@ -150,6 +152,22 @@ def storeRoute (route : String) (v : V) : Option String :=
             | (s4, .ok _) => let (s5, r) := closeIter s4; fin s5 (code r)
             | (s4, .error c) => fin (abortIter s4).1 c
       | (s1, .error c) => fin s1 c
+    | "frameset" =>
+      -- block b: loop (_k) with one packet; save frame f in b: _k; save frame g in f: _x := v; read from g
+      match createLoop s hB none [nm kK] with
+      | (s1, .ok l) =>
+        let (s2, r1) := addKeys s1 l [1]
+        match createFrame s2 hB (some (nm [102])) with
+        | (s3, .ok hF) =>
+          let (s4, r2) := setValueC s3 hF (nm kK) (keyVal 1)
+          match createFrame s4 hF (some (nm [103])) with
+          | (s5, .ok hG) =>
+            let (s6, r) := setValueC s5 hG (nm kX) v
+            let rc := if r1 != 0 then r1 else if code r2 != 0 then code r2 else code r
+            if rc != 0 then some ("sv rc=" ++ toString rc) else some ("sv rc=0 " ++ readBack s6 hG true)
+          | (_, .error c) => some ("sv rc=" ++ toString c)
+        | (_, .error c) => some ("sv rc=" ++ toString c)
+      | (s1, .error c) => fin s1 c
     | _ => none
 
 def parseVal (toks0 : List String) : Option V :=
@@ -241,7 +259,7 @@ def handle : Handler
     | some v => itSession v
     | none => none
   | route :: mode :: toks0 =>
-    if !(["set", "additem", "addpkt", "update", "parse"].contains route) || !(["0", "1", "2"].contains mode) then none else
+    if !(["set", "additem", "addpkt", "update", "parse", "frameset"].contains route) || !(["0", "1", "2"].contains mode) then none else
     match parseVal toks0 with
     | some v => storeRoute route v
     | none => none
